@@ -136,4 +136,147 @@ theorem tables_known :
      known Gen.Sem.setPhase && known Gen.Sem.setError && known Gen.Sem.cancel && known Gen.Sem.cancelled &&
      known Gen.Sem.recoverWith) = true := by decide
 
+/-! ### round 8c: `enqueue`, `Track`, `Untrack`, `Recover` -/
+
+theorem upd_upd {α : Type} (f : Nat → α) (k : Nat) (v w : α) : upd (upd f k v) k w = upd f k w := by
+  funext x; by_cases h : x = k <;> simp [upd, h]
+
+/-- `op.SetError(err); op.Cancel()` is the model's `failOp` -/
+theorem setError_cancel (s : State) (i : Nat) :
+    cancelOp { s with ops := upd s.ops i { s.ops i with phase := .error } } i = failOp s i := by
+  simp [cancelOp, failOp, upd_upd, upd_same]
+
+theorem enqueueT_eq (cfg : Cfg) (s : State) (p : PinSpec) (typ : OpType) (ht : typ ≠ .remote) :
+    enqueueT Gen.Sem.enqueue cfg s p typ = some (enqueue cfg s p typ) := by
+  unfold enqueueT enqueue
+  cases typ with
+  | remote => exact absurd rfl ht
+  | pin =>
+    rcases h : trackNew s p .pin .queued with ⟨s1, o⟩
+    cases o with
+    | none => simp [h, Gen.Sem.enqueue, holdsLits, envEnq, execEnq, chanOf, roomFor, Ty.ofOp]
+    | some i =>
+      by_cases hr : s1.pinQ.length < cfg.cap <;>
+        simp [h, hr, Gen.Sem.enqueue, holdsLits, envEnq, execEnq, chanOf, roomFor, Ty.ofOp, setError_cancel]
+  | unpin =>
+    rcases h : trackNew s p .unpin .queued with ⟨s1, o⟩
+    cases o with
+    | none => simp [h, Gen.Sem.enqueue, holdsLits, envEnq, execEnq, chanOf, roomFor, Ty.ofOp]
+    | some i =>
+      by_cases hr : s1.unpinQ.length < cfg.cap <;>
+        simp [h, hr, Gen.Sem.enqueue, holdsLits, envEnq, execEnq, chanOf, roomFor, Ty.ofOp, setError_cancel]
+
+theorem trackT_core (cfg : Cfg) (s : State) (p : PinSpec) (e : Bool) :
+    (match firstRow Gen.Sem.track (envTrack p.kind (trackNew s p .remote .inProgress).2.isNone e) with
+     | some acts => execTrack cfg p acts s none
+     | none => none) =
+    some (match p.kind with
+      | .sharded => (s, .nil)
+      | .remote =>
+        match trackNew s p .remote .inProgress with
+        | (s1, none) => (s1, .nil)
+        | (s1, some i) => ({ s1 with calls := s1.calls ++ [{ op := i, kind := .unpin, sync := true, eff := false }] }, .nil)
+      | .here => enqueue cfg s p .pin) := by
+  cases hk : p.kind with
+  | sharded => simp [firstRow, holdsLits, envTrack, Gen.Sem.track, execTrack]
+  | here => simp [firstRow, holdsLits, envTrack, Gen.Sem.track, execTrack]
+  | remote =>
+    rcases h : trackNew s p .remote .inProgress with ⟨s1, o⟩
+    cases o <;> cases e <;> simp [h, firstRow, holdsLits, envTrack, Gen.Sem.track, execTrack]
+
+theorem trackT_eq (cfg : Cfg) (s : State) (p : PinSpec) (e : Bool) :
+    trackT Gen.Sem.track cfg s p e = some (track cfg s p) :=
+  trackT_core cfg _ p e
+
+theorem track_after_err :
+    (∀ o, runOp (trackAfter Gen.Sem.track false) o = { o with phase := .error, cancelled := true }) ∧
+    (trackAfter Gen.Sem.track false).contains .clean = false := ⟨fun _ => rfl, rfl⟩
+
+theorem track_after_ok :
+    (∀ o, runOp (trackAfter Gen.Sem.track true) o = { o with phase := .done, cancelled := true }) ∧
+    (trackAfter Gen.Sem.track true).contains .clean = true := ⟨fun _ => rfl, rfl⟩
+
+theorem recoverT_eq (cfg : Cfg) (s : State) (c : Nat) : recoverT Gen.Sem.recover cfg s c = some (recover cfg s c) := by
+  unfold recoverT recover statusOf
+  cases h : s.cur c <;> simp [firstRow, holdsLits, envFound, Gen.Sem.recover]
+
+theorem statusTbl_eq (s : State) (ls : Bool) (c : Nat) : statusTbl Gen.Sem.status s ls c = some (statusR s ls c) := by
+  unfold statusTbl statusR
+  cases h : s.cur c with
+  | some i => simp [firstRow, holdsLits, envStatus, Gen.Sem.status, execStatus]
+  | none =>
+    cases hs : s.shared c with
+    | none => simp [firstRow, holdsLits, envStatus, Gen.Sem.status, execStatus]
+    | some p =>
+      cases hk : p.kind <;> cases ls <;> cases hh : heldAs s c p.mode <;>
+        simp [hk, hh, firstRow, holdsLits, envStatus, Gen.Sem.status, execStatus]
+
+/-- the shared state cannot be read (`getState` or `st.Get` fails) and there is no table entry: cluster_error -/
+theorem statusTbl_stateErr (s : State) (ls : Bool) (c : Nat) (a b : Bool) (h : s.cur c = none) (hab : (a && b) = false)
+    (hp : ∃ p, s.shared c = some p) :
+    statusTbl Gen.Sem.status s ls c a b = some .clusterError := by
+  obtain ⟨p, hp⟩ := hp
+  unfold statusTbl
+  cases a <;> cases b <;> simp at hab <;> simp [h, hp, firstRow, holdsLits, envStatus, Gen.Sem.status, execStatus]
+
+theorem addError_table (env : Atom → Bool) : firstRow Gen.Sem.addError env = some [.setStatus .clusterError, .retVoid] := by
+  simp [firstRow, holdsLits, Gen.Sem.addError]
+
+theorem raLoopT_eq (cfg : Cfg) (L : Nat → Option Status) (items : List (List Ev × Nat)) :
+    ∀ s, raLoopT Gen.Sem.recoverAllBody cfg L s items = some (raLoop cfg L s items) := by
+  induction items with
+  | nil => intro s; rfl
+  | cons it rest ih =>
+    intro s
+    obtain ⟨pre, c⟩ := it
+    unfold raLoopT raLoop
+    cases hL : L c with
+    | none => simp only []; exact ih _
+    | some st =>
+      simp only []
+      rcases h : recoverWith cfg (run cfg s pre) c st with ⟨a, b⟩
+      cases b with
+      | nil => simp [bodyT, h, firstRow, holdsLits, envErr, Gen.Sem.recoverAllBody]; exact ih a
+      | full => simp [bodyT, h, firstRow, holdsLits, envErr, Gen.Sem.recoverAllBody]
+
+/-- the listing failed: the error is returned and the loop is not entered; it worked: the loop, then `resp, nil` -/
+theorem recoverAll_outer :
+    firstRow Gen.Sem.recoverAll (envErr false) = some [.listAll, .retErr] ∧
+    firstRow Gen.Sem.recoverAll (envErr true) = some [.listAll, .forEach, .retNil] := by decide
+
+/-- the entry `localStatus` makes for a pin of the pinset without table entry (as `statusAll` calls it: extras included, no filter) is the
+    model's `statusAllOf` -/
+theorem localT_eq (s : State) (c : Nat) (p : PinSpec) (hc : s.cur c = none) (hs : s.shared c = some p) :
+    localT Gen.Sem.localBody p.kind (heldAs s c p.mode) true (fun _ => true) = some (statusAllOf s c) := by
+  unfold statusAllOf
+  cases hk : p.kind <;> cases hh : heldAs s c p.mode <;>
+    simp [hc, hs, hk, hh, localT, firstRow, holdsLits, envLocal, Gen.Sem.localBody, execLocal]
+
+/-- without `incExtra`, or when the filter does not ask for them, meta and remote pins are left out -/
+theorem localT_skips (k : Kind) (b : Bool) (fm : Status → Bool) (hk : k ≠ .here) :
+    localT Gen.Sem.localBody k b false fm = some none ∧ localT Gen.Sem.localBody k b true (fun _ => false) = some none := by
+  cases k <;> cases b <;> simp at hk <;> simp [localT, firstRow, holdsLits, envLocal, Gen.Sem.localBody, execLocal]
+
+/-- `statusAll(ctx, TrackerStatusUndefined)` (every status matches) lists for `c` what the model's `listingR` says: the table entry's status
+    if there is one, else `localStatus`'s entry; nothing at all when the listing failed -/
+theorem statusAllT_eq (s : State) (ls : Bool) (c : Nat) :
+    statusAllT Gen.Sem.statusAll Gen.Sem.statusAllOverlay Gen.Sem.statusAllFilter s ls (fun _ => true) c = some (listingR s ls c) := by
+  unfold statusAllT listingR statusAllOf
+  cases ls
+  · simp [firstRow, holdsLits, envErr, Gen.Sem.statusAll, execSA]
+  · cases h : s.cur c with
+    | some i => simp [firstRow, holdsLits, envErr, envSelf, Gen.Sem.statusAll, Gen.Sem.statusAllOverlay, Gen.Sem.statusAllFilter, execSA]
+    | none =>
+      cases hs : s.shared c with
+      | none => simp [firstRow, holdsLits, envErr, envSelf, Gen.Sem.statusAll, Gen.Sem.statusAllOverlay, Gen.Sem.statusAllFilter, execSA]
+      | some p =>
+        cases hk : p.kind <;> cases hh : heldAs { s with cur := fun _ => none } c p.mode <;>
+          simp [hk, hh, heldAs] at * <;>
+          simp [*, heldAs, firstRow, holdsLits, envErr, envSelf, Gen.Sem.statusAll, Gen.Sem.statusAllOverlay, Gen.Sem.statusAllFilter, execSA]
+
+theorem tables_known_c :
+    (known Gen.Sem.enqueue && known Gen.Sem.track && known Gen.Sem.untrack && known Gen.Sem.recover &&
+     known Gen.Sem.status && known Gen.Sem.addError && known Gen.Sem.recoverAll && known Gen.Sem.recoverAllBody &&
+     known Gen.Sem.localBody && known Gen.Sem.statusAll && known Gen.Sem.statusAllOverlay && known Gen.Sem.statusAllFilter) = true := by decide
+
 end CV.C05.T
